@@ -5,9 +5,10 @@
    (coq/C08/Model.v): g is the slice DAG as compile() sees it, init the tasks of
    earlier invocations that Result arguments refer to, env the CompileEnv.
    [compile_top] is compile_gen at the code's configuration
-   [result_shuffle_fixed] = true, and [transported_env] the environment shipped to
-   workers at [transport_freezes_env] = true: both repairs found by this check are
-   in /repo (f1643ee, 1222816) and pinned below.  The general theorems are proved
+   [code_config] (re-shuffle tasks over a Result partitioned: f1643ee; and named
+   by this invocation: 3babbc3), and [transported_env] the environment shipped to
+   workers at [transport_freezes_env] = true (1222816): the repairs are in /repo
+   and pinned below.  The general theorems are proved
    for both values of [fixed]; the *_code theorems state the property for the
    code as it is, without guards; the *_witness theorems record that the two
    former configurations violated it. *)
@@ -20,7 +21,7 @@ Local Open Scope nat_scope.
 (* ---- tie to the source: the literals compile() builds names from ---- *)
 Theorem C08_gen_compile_literals :
   compile_string_literals =
-  ["cannot reuse task %s with combine key %s"; "%s_shuffle"; ""; "inv%d"; "_";
+  ["cannot reuse task %s with combine key %s"; "inv%d_%s_shuffle"; ""; "inv%d"; "_";
    "tasks:%d deptasks:%d"; ""; "%s(%s)"]%string.
 Proof. reflexivity. Qed.
 Theorem C08_gen_namer_literals : namer_string_literals = ["%s%d"%string] /\ namer_int_literals = [0%Z].
@@ -51,6 +52,15 @@ Theorem C08_code_result_shuffle_fixed : result_shuffle_fixed = true.
 Proof. exact code_result_shuffle_fixed. Qed.
 Theorem C08_code_transport_freezes : transport_freezes_env = true.
 Proof. exact code_transport_freezes. Qed.
+Theorem C08_code_reshuffle_named_by_inv : reshuffle_named_by_inv = true.
+Proof. exact code_reshuffle_named_by_inv. Qed.
+Theorem C08_code_config : code_config = mkConfig true true.
+Proof. reflexivity. Qed.
+(* the format the repaired naming is modelled after *)
+Theorem C08_gen_reshuffle_name_format :
+  nth 1 compile_string_literals ""%string = "inv%d_%s_shuffle"%string
+  /\ forall inv op, shuffle_base inv code_config op = ("inv" ++ decN inv ++ "_" ++ op ++ "_shuffle")%string.
+Proof. split; reflexivity. Qed.
 
 (* ---- the fuel (DAG size + 1) always suffices ---- *)
 Theorem C08_fuel_suffices : forall g inv mc fixed, wf_dag g ->
@@ -78,6 +88,54 @@ Theorem C08_names_unique_digit_refuted :
   exists st roots, compile_top g_digit 1%N false [] empty_env = COk st roots
                    /\ ~ NoDup (map name_of (sstore st)).
 Proof. exact names_unique_digit_refuted. Qed.
+
+
+(* ---- names across invocations: every operation name minted by invocation i
+        starts with "inv<i>_", so invocations with distinct indices never mint the
+        same operation name, whatever Results they share (task stores are keyed by
+        operation name and shard) ---- *)
+Theorem C08_ops_carry_invocation : forall fixed g inv mc init env st roots,
+  cfg_named_by_inv fixed = true -> wf_dag g ->
+  compile_gen fixed g inv mc init env = COk st roots ->
+  forall t, In t (skipn (List.length init) (sstore st)) -> prefixed inv (top t).
+Proof. exact ops_carry_invocation. Qed.
+Theorem C08_ops_disjoint_across_invocations :
+  forall fixed g g' i j mc mc' init init' env env' st st' roots roots',
+  cfg_named_by_inv fixed = true -> wf_dag g -> wf_dag g' ->
+  compile_gen fixed g i mc init env = COk st roots ->
+  compile_gen fixed g' j mc' init' env' = COk st' roots' ->
+  i <> j ->
+  forall t t', In t (skipn (List.length init) (sstore st)) ->
+               In t' (skipn (List.length init') (sstore st')) -> top t <> top t'.
+Proof. exact ops_disjoint_across_invocations. Qed.
+Print Assumptions C08_ops_disjoint_across_invocations.
+(* for the code as it is *)
+Theorem C08_ops_disjoint_across_invocations_code :
+  forall g g' i j mc mc' init init' env env' st st' roots roots',
+  wf_dag g -> wf_dag g' ->
+  compile_top g i mc init env = COk st roots ->
+  compile_top g' j mc' init' env' = COk st' roots' ->
+  i <> j ->
+  forall t t', In t (skipn (List.length init) (sstore st)) ->
+               In t' (skipn (List.length init') (sstore st')) -> top t <> top t'.
+Proof.
+  intros g g' i j mc mc' init init' env env' st st' roots roots'.
+  exact (ops_disjoint_across_invocations code_config g g' i j mc mc' init init' env env' st st' roots roots'
+           code_config_named_by_inv).
+Qed.
+
+(* WITNESS about the former naming (cfg_named_by_inv = false: "%s_shuffle" of the
+   Result's operation name, compile.go before 3babbc3): invocations 2 and 3
+   re-shuffling the Result of invocation 1 minted the same operation name. *)
+Theorem C08_reshuffle_old_naming_witness :
+  exists st2 r2 st3 r3,
+    compile_gen (mkConfig true false) g_reshuffle_result 2%N false init_result empty_env = COk st2 r2
+    /\ compile_gen (mkConfig true false) g_reshuffle_result 3%N false init_result empty_env = COk st3 r3
+    /\ exists t2 t3, nth_error (sstore st2) 2 = Some t2 /\ nth_error (sstore st3) 2 = Some t3
+                     /\ top t2 = "inv1_const_shuffle"%string /\ top t2 = top t3 /\ tshard t2 = tshard t3
+                     /\ tinv t2 <> tinv t3.
+Proof. exact reshuffle_old_naming_witness. Qed.
+Print Assumptions C08_reshuffle_old_naming_witness.
 
 (* ---- acyclic: task identities are a rank that decreases along dependencies ---- *)
 Theorem C08_acyclic : forall g inv mc fixed init env st roots,
@@ -191,17 +249,17 @@ Theorem C08_shuffle_wiring_code : forall g inv mc init env st roots,
 Proof. exact shuffle_wiring_code. Qed.
 Print Assumptions C08_shuffle_wiring_code.
 
-(* WITNESS about the former configuration (compile_gen false = compile.go before
+(* WITNESS about the former configuration (cfg_partitioned = false: compile.go before
    f1643ee): a shuffle whose producer is a Result was not wired as demanded; the
    inserted re-shuffle tasks declared NumPartition = 0 and no partitioner. *)
 Theorem C08_result_shuffle_unfixed_witness :
   exists st roots,
-    compile_gen false g_reshuffle_result 2%N false init_result empty_env = COk st roots
+    compile_gen (mkConfig false true) g_reshuffle_result 2%N false init_result empty_env = COk st roots
     /\ exists t td m u,
          nth_error (sstore st) (nth 1 roots 0) = Some t /\ In td (tdeps t)
          /\ dpart td = 1
          /\ In m (members (sstore st) td) /\ nth_error (sstore st) m = Some u
-         /\ top u = "inv1_const_shuffle"%string
+         /\ top u = "inv2_inv1_const_shuffle"%string
          /\ tnumpart u = 0 /\ tnumpart u <> tnshard t /\ tpart u = 0.
 Proof. exact result_shuffle_unfixed_witness. Qed.
 Print Assumptions C08_result_shuffle_unfixed_witness.
